@@ -555,6 +555,17 @@ func finishCheck(prop, tierName string, tier, seed int, jobs []*job, tmp string,
 	if fatal > 0 {
 		return 2
 	}
+	if inconclusive+unwindFail > 0 {
+		// an obligation the solver left undecided, or a loop bound that was hit:
+		// only bounds that run clean are registered
+		return 2
+	}
+	if unsupported > 0 {
+		// code the executor cannot interpret was reached: the paths through it
+		// were not explored, which on a tree where every path used to be
+		// interpretable means this run cannot vouch for the property
+		return 2
+	}
 	if witnessBad > 0 {
 		// the executor and the native run disagree on a reachability witness:
 		// nothing this run says is trusted (inconclusive, never "holds")
